@@ -288,30 +288,36 @@ Section SchemaProofs.
   Qed.
 
   (* ---- the optional view (API PATCH / replace): decode what enc wrote into the all-pointer struct, patch *)
-  (* pointer fields carry omitempty (true of conf.Conf and conf.Path) *)
-  Definition ptr_omit (fs : list field) : bool :=
-    forallb (fun f : field => implb (is_opt codec (snd f)) (snd (fst f))) fs.
+  Definition viewf (f : field) : field :=
+    (fst (fst f), true, if is_opt codec (snd f) then snd f else TOpt (snd f)).
 
-  Lemma enc_fields_lift fs : forall vs,
-    ok_fields fs = true -> ptr_omit fs = true -> wf_fields fs vs ->
-    enc_fields (map (fun f : field => (fst (fst f), true, if is_opt codec (snd f) then snd f else TOpt (snd f))) fs)
-               (lift_fields codec cval fs vs) = enc_fields fs vs.
+  Lemma optionalize_struct fs : optionalize codec (TStruct fs) = TStruct (map viewf fs).
+  Proof. reflexivity. Qed.
+
+  Lemma dec_fields_view m : forall fs vs,
+    ok_fields fs = true -> wf_fields fs vs ->
+    Forall (fun f : field => forall v, wf (snd f) v -> dec (snd f) (enc (snd f) v) = Some v) fs ->
+    Forall (fun f : field => is_opt codec (snd f) = false -> forall v, wf (snd f) v -> enc (snd f) v <> JNull) fs ->
+    (forall f v, In (f, v) (combine fs vs) -> lookup_last (fst (fst f)) m = entry f v) ->
+    dec_fields m (map viewf fs) = Some (lift_fields codec cval fs vs).
   Proof.
-    induction fs as [|f fs IH]; intros vs Hok Hpo Hw; [reflexivity|].
-    destruct vs as [|v vs]; [contradiction|]. destruct Hw as [Hwv Hw].
-    cbn [ok_fields] in Hok. apply andb_true_iff in Hok as [Hok Hokr]. apply andb_true_iff in Hok as [Hom _].
-    unfold ptr_omit in Hpo. cbn [forallb] in Hpo. apply andb_true_iff in Hpo as [Hpo1 Hpor].
-    cbn [map lift_fields enc_fields fst snd]. rewrite (IH vs Hokr Hpor Hw).
-    destruct (is_opt codec (snd f)) eqn:Eo.
-    - (* a pointer field: same value; omitted iff nil in both views *)
-      cbn [implb] in Hpo1. rewrite Hpo1.
-      destruct (snd f) eqn:Et; try discriminate.
-      destruct v; cbn [C08_Schema.wf] in Hwv; try contradiction.
-      + reflexivity.
-      + reflexivity.
-    - (* a plain field is never omitted in the original (omitempty only on pointers) *)
-      rewrite orb_false_r in Hom. apply negb_true_iff in Hom. rewrite Hom.
-      cbn [is_empty andb C08_Schema.enc]. reflexivity.
+    induction fs as [|f fs IH]; intros vs Hok Hw HIH Hnn Hlk.
+    - destruct vs; [reflexivity|contradiction].
+    - destruct vs as [|v vs]; [contradiction|]. cbn [wf_fields] in Hw. destruct Hw as [Hwv Hw].
+      cbn [ok_fields] in Hok. apply andb_true_iff in Hok as [Hok Hokr]. apply andb_true_iff in Hok as [Hom Hokt].
+      inversion HIH as [|? ? Hf HIHr]; subst. inversion Hnn as [|? ? Hn Hnnr]; subst.
+      cbn [map dec_fields lift_fields]. unfold viewf at 1 2 3. cbn [fst snd].
+      rewrite (Hlk f v (or_introl eq_refl)).
+      rewrite (IH vs Hokr Hw HIHr Hnnr) by (intros f' v' H'; apply Hlk; right; exact H').
+      unfold entry. destruct (snd (fst f) && is_empty cval v) eqn:E.
+      + (* omitted in the encoding: a nil pointer *)
+        apply andb_true_iff in E as [Eom Eem]. rewrite Eom in Hom. cbn [negb orb] in Hom. rewrite Hom.
+        destruct (snd f) eqn:Et; try discriminate. cbn [C08_Schema.zero].
+        destruct v; cbn [C08_Schema.wf] in Hwv; try contradiction; [reflexivity|discriminate].
+      + destruct (is_opt codec (snd f)) eqn:Eo.
+        * rewrite (Hf v Hwv). reflexivity.
+        * pose proof (Hn eq_refl v Hwv) as Hnz. pose proof (Hf v Hwv) as Hd.
+          cbn [C08_Schema.dec]. destruct (enc (snd f) v); try contradiction; rewrite Hd; reflexivity.
   Qed.
 
   Lemma patch_lift fs : forall vs, wf_fields fs vs -> patch_fields codec cval fs vs (lift_fields codec cval fs vs) = vs.
@@ -338,17 +344,29 @@ Section SchemaProofs.
 
   Theorem optional_roundtrip fs vs :
     let t := TStruct fs in let v := VStruct vs in
-    ty_ok t = true -> ptr_omit fs = true ->
-    ty_ok (optionalize codec t) = true -> codecs_ok (optionalize codec t) -> wf t v ->
+    ty_ok t = true -> codecs_ok t -> wf t v ->
     dec (optionalize codec t) (enc t v) = Some (lift codec cval t v) /\
     patch codec cval t v (lift codec cval t v) = v.
   Proof.
-    cbv zeta. intros Hok Hpo Hok' Hc Hw. apply wf_struct in Hw.
-    rewrite ty_ok_struct in Hok. apply andb_true_iff in Hok as [_ Hokf].
+    cbv zeta. intros Hok Hc Hw. apply wf_struct in Hw.
+    rewrite ty_ok_struct in Hok. apply andb_true_iff in Hok as [Hnd Hokf].
     split.
-    - cbn [optionalize lift]. rewrite enc_struct. rewrite <- (enc_fields_lift fs vs Hokf Hpo Hw).
-      rewrite <- enc_struct. apply schema_roundtrip; [exact Hok'|exact Hc|].
-      apply wf_struct, wf_lift, Hw.
+    - rewrite optionalize_struct, enc_struct, dec_struct. cbn [lift].
+      assert (Hknown : forallb (fun kv : list Z * json => known codec (fst kv) (map viewf fs)) (enc_fields fs vs) = true).
+      { apply forallb_forall. intros kv Hkv. apply known_in. rewrite map_map. cbn [viewf fst].
+        eapply keys_enc_fields. apply in_map_iff. exists kv. split; [reflexivity|exact Hkv]. }
+      rewrite Hknown.
+      assert (Hsub : forall f, In f fs -> ty_ok (snd f) = true /\ codecs_ok (snd f)).
+      { unfold codecs_ok in Hc. rewrite codecs_struct in Hc. clear Hknown Hw Hnd.
+        induction fs as [|f0 fs0 IHfs]; intros f Hin; [contradiction|].
+        cbn [ok_fields] in Hokf. apply andb_true_iff in Hokf as [Hok1 Hokr]. apply andb_true_iff in Hok1 as [_ Hokt].
+        destruct Hin as [->|Hin].
+        - split; [exact Hokt|]. intros c Hcin. apply Hc. cbn [codecs_fields]. apply in_or_app. left. exact Hcin.
+        - apply IHfs; [exact Hokr| |exact Hin]. intros c Hcin. apply Hc. cbn [codecs_fields]. apply in_or_app. right. exact Hcin. }
+      rewrite (dec_fields_view (enc_fields fs vs) fs vs Hokf Hw); [reflexivity| | |].
+      + apply Forall_forall. intros f Hin v Hv. destruct (Hsub f Hin) as [H1 H2]. apply schema_roundtrip; assumption.
+      + apply Forall_forall. intros f Hin Ho v Hv. destruct (Hsub f Hin) as [H1 H2]. apply enc_nonnull; assumption.
+      + apply lookup_enc_fields, Hnd.
     - cbn [patch lift]. rewrite (patch_lift fs vs Hw). reflexivity.
   Qed.
 End SchemaProofs.
